@@ -701,8 +701,9 @@ def run(tier, seed):
         "samples": samples, "violations": violations,
         "traces_validated_against_impl": len(coq_cases) - len(set(res["c12_check"]) | set(res["c12_check_net"])),
         "coverage": {"distribution": dist, "coq_cases": len(coq_cases), "correspondence_failures": len(set(res["c12_check"]) | set(res["c12_check_net"]))},
-        "trusted_base": ["chain processes communicate only through the pipes of PipeMatrix (no shared memory); a pipe is FIFO and pickles what it carries; recv blocks; send does not block "
-                         "(the protocol never has more than one message in flight per direction; the operating system's pipe buffer is not modelled)",
+        "trusted_base": ["chain processes communicate only through the pipes of PipeMatrix (no shared memory); a pipe is FIFO and pickles what it carries; recv blocks; the theorems hold for "
+                         "queues of every capacity >= 1 message (a full queue blocks the sender) and for unbounded ones; a single message larger than the operating system's pipe buffer "
+                         "(send completing only while the peer receives) is not modelled",
                          "the cooperative scheduler interleaves at send/recv boundaries only: the code between two pipe operations of a chain touches only that chain's state",
                          "transitions enter the Coq instance as the observed (state before, state after) pairs; targets, exp and the exchange uniforms as logged tables"],
     }
